@@ -215,7 +215,7 @@ func (w *walker) number(want float32) error {
 	if err != nil {
 		return fmt.Errorf("line %d: cannot read number %q", l.no, l.text)
 	}
-	if !ops.SameF32(got, want) && !(got == 0 && want == 0) {
+	if !ops.SameF32(got, want) {
 		return fmt.Errorf("line %d: printed %q, delivered %v", l.no, strings.TrimSpace(l.text), ops.F32(want))
 	}
 	return nil
@@ -693,7 +693,7 @@ func firstDiffAt(a, b []byte) int {
 	return n
 }
 
-var subTool = harness.Define("disivg-tool", "the cmd/disivg command built from the same tree: sequences of 2-4 inputs (generated streams of different lengths, some rejected) disassembled one after the other into the same -o file and to stdout; the file and stdout must equal decode.Disassemble of the current input, rejected inputs exit non-zero and leave the file alone; non-trivial = a shorter listing follows a longer one", checkTool)
+var subTool = harness.Define("disivg-tool", "the cmd/disivg command built from the same tree: sequences of 2-4 inputs (generated streams of different lengths, some rejected; also valid graphics of 64 KiB to 200 kB) disassembled one after the other into the same -o file and to stdout; the file and stdout must equal decode.Disassemble of the current input, rejected inputs exit non-zero and leave the file alone; non-trivial = a shorter listing follows a longer one", checkTool)
 
 func TestDisivgTool(t *testing.T) {
 	if os.Getenv("VERIF_DISIVG") == "" {
@@ -728,4 +728,17 @@ func TestDisivgTool(t *testing.T) {
 		subTool.See(c, shrinks, harness.HashJSON(c))
 		subTool.Run(t, c)
 	})
+	// graphics far larger than any test file (the tool reads its whole input, however long):
+	// valid streams of many small paths, cut at an instruction boundary and inside an operand
+	for _, size := range []int{65536 + 4466, 65536 - 1, 200003} {
+		b := []byte{0x89, 'I', 'V', 'G', 0x00}
+		for i := 0; len(b) < size; i++ {
+			b = append(b, 0xc0, 0x80+byte(i&0x3e), 0x70, 0x01, 0x90, 0x80+byte(i>>6&0x3e), 0x60, 0x91, 0xe1)
+		}
+		whole := ToolCase{Inputs: []ops.Hex{append([]byte{}, b...), {0x89, 'I', 'V', 'G', 0x00}}}
+		if err := subTool.Eval(whole); err != nil {
+			t.Fatalf("large input (%d bytes): %v", len(b), err)
+		}
+		subTool.AddEnumerated(1, 1)
+	}
 }
